@@ -114,6 +114,9 @@ func TestC10(t *testing.T) {
 	}
 	rapidCheck(t, func(rt *rapid.T) {
 		switch rapid.IntRange(0, 19).Draw(rt, "part_e2e2") {
+		case 2:
+			parallelPart(rt, rec, "C10", kinds)
+			return
 		case 0:
 			// end to end: a table id announced again with other column types must be decoded with the new ones
 			c := drawRebind(rt, 0)
